@@ -22,6 +22,7 @@ Line protocol for the C17 settings model (stateful; values are interned numbers)
   rename NAME                  -> NAME' T|F
   read [NAME=RAW,...]          -> ok|reject inv=[...]   (A := result)
   modified [K=V | K=@D:V ,...] -> ok|reject            (B := copy of A with changes)
+  optsch T|F [OPT,..] RAW FALLBACK|x   -> x | TOK     Setting._setSchema with the CURRENT option list (fallback = Coerce(type(default)) verdict)
   numsch int|float MIN|_ MAX|_ T|F T|F i:N|f:Q|b:T|F   -> x | i:N | f:Q     All(Coerce(T), Range(min, max, min_included, max_included))
   base / clr                   remember the tables and the application's definitions / restore them, A := fresh, B := []
   revert NAME                  Setting.revertToDefault on A
@@ -155,6 +156,11 @@ def step (s : St) : List String → St × String
         ({ s with a := res.reg }, (if res.ok then "ok" else "reject") ++ " inv=" ++ showList id res.invalid)
       | some _, none => (s, "reject-renamer")
       | none, _ => (s, "bad-op")
+  | ["optsch", enf, opts, raw, fb] => match parseBool? enf, parseList? (fun x => x.toNat?) opts, raw.toNat? with
+      | some enf, some opts, some raw =>
+        let fallback : Nat → Option Nat := fun _ => if fb = "x" then none else fb.toNat?
+        (s, match optSchema enf opts fallback raw with | some v => toString v | none => "x")
+      | _, _, _ => (s, "bad-op")
   | ["numlist", t, mn, mx, mi, xi, raws] =>
       let t? : Option NumType := match t with | "int" => some .int | "float" => some .float | _ => none
       let opt : String → Option (Option Rat) := fun x => if x = "_" then some none else (parseRat? x).map some
